@@ -269,6 +269,12 @@ func TestC02_StructuredParts(t *testing.T) {
 		for i := 1; i < k; i++ {
 			before := helper.fullObs(parts[i], models[i], cfgs[i])
 			var err error
+			if rapid.IntRange(0, 2).Draw(t, "encodefirst") == 0 {
+				// the receiver was serialized just before (which empties what its buffer can give to pages)
+				var scratch []byte
+				parts[0].Encode(&scratch, false)
+				cl.label("receiver-encoded-before-merge")
+			}
 			if rapid.IntRange(0, 3).Draw(t, "viaDecode") == 0 {
 				var b []byte
 				parts[i].Encode(&b, rapid.Bool().Draw(t, "omit"))
@@ -288,6 +294,33 @@ func TestC02_StructuredParts(t *testing.T) {
 				if msg := checkAgainstModel(parts[0], cfgs[0], models[0], bud); msg != "" {
 					t.Fatalf("C02 structured: after merging part %d: %s", i, msg)
 				}
+			}
+			// the receiver lives on: it is serialized, fed a few more unit values, reweighted and restored - none of which
+			// may reach the argument it has just absorbed
+			switch rapid.IntRange(0, 3).Draw(t, "receiverafter") {
+			case 0:
+				var scratch []byte
+				parts[0].Encode(&scratch, false)
+			case 1:
+				for j, n := 0, rapid.IntRange(1, 70).Draw(t, "morefed"); j < n; j++ {
+					v := dom.clamp(m.Value(base + 32*rapid.IntRange(-30, 30).Draw(t, "morepage") + j%32))
+					if bud.Fits(whole.total() + 1) {
+						_, _ = parts[0].Add(v), twin.Add(v)
+						models[0].add(v, 1)
+						whole.add(v, 1)
+					}
+				}
+			case 2:
+				_ = parts[0].Reweight(2)
+				_ = parts[0].Reweight(0.5)
+			}
+			if dd := obs.DiffSketch(helper.fullObs(parts[i], models[i], cfgs[i]), before, obs.DiffOpts{IgnoreSum: cfgs[i].anySparse()}); dd != "" {
+				t.Fatalf("C02 structured: what the receiver did after the merge changed the argument (part %d): %s", i, dd)
+			}
+		}
+		for i := 1; i < k; i++ {
+			if msg := checkAgainstModel(parts[i], cfgs[i], models[i], bud); msg != "" {
+				t.Fatalf("C02 structured: at the end, the argument of an earlier merge (part %d) differs from its own model: %s", i, msg)
 			}
 		}
 		if msg := checkAgainstModel(parts[0], cfgs[0], whole, bud); msg != "" {
